@@ -6,6 +6,7 @@ CONSTANTS
   AngleGuard = FALSE
   FontFix = TRUE
   BgFix = TRUE
+  TrackAttribution = FALSE
   AttrEscapes = 1
   EmitEdges = FALSE
 INIT Init
